@@ -152,6 +152,21 @@ def main():
     lin = [{"kind": "loc", "state": "linear", "locs": l, "ops": copy.deepcopy(o)} for l, o in gens]
     impl, model, mc = lr.run(idx + lin, nontrivial=lambda c: any(o["op"] in ("event", "searchRules") for o in c["ops"]) and any(o["op"] == "addRule" for o in c["ops"]))
     lr.cross_states(idx, lin, impl[:n], impl[n:], ops=("event",))
+    # a storage write that fails in the middle of a history (reported to the caller): afterwards the location still dispatches exactly
+    # the rules it holds -- an index taken apart for a replacement and not put together again when the write fails shows here
+    fbase = [c for c in idx + lin if len(c["locs"]) == 1][: (120 if not ck.thorough else 3000)]
+    fb_out = run_cases(lr.drv, fbase)
+    fcs = []
+    for c, o in zip(fbase, fb_out):
+        W = ((o or {}).get("outs") or [{}])[-1].get("writes", 0) if (o or {}).get("outs") else 0
+        if W:
+            for n_ in ck.rng.sample(range(1, W + 1), min(W, 2 if not ck.thorough else 4)):
+                fcs.append(dict(copy.deepcopy(c), failAt=n_))
+    if fcs:
+        def OBS(c):
+            evs = [copy.deepcopy(o) for o in c["ops"] if o["op"] == "event"][-3:] or [{"op": "event", "event": {"a": 1}}]
+            return [dict(e, loc="a") for e in evs] + [{"op": "listRules", "inherited": False, "loc": "a"}]
+        selfcons_phase(ck, lr, fcs, run_cases(lr.drv, fcs), OBS, ck.rng, 200 if not ck.thorough else 100000)
     # unit-level tie of the pattern index itself: add/rem/search sequences on one core.PatternIndex against PI.mod / PI.search
     nu = 1500 if not ck.thorough else 40000
     ucases = []
